@@ -121,6 +121,7 @@ impl TwinEngine {
             },
             TwinKind::SaveLoad => {
                 let p = tmp_file("twin");
+                crate::interp::older_checkpoint(&p, r.cfg.n, r.done.len());
                 let out = r.g.save(&p).and_then(|_| r.g.load_same(&p));
                 let _ = std::fs::remove_file(&p);
                 out.map_err(|e| format!("{e:#}"))
